@@ -189,6 +189,8 @@ def run_wire(cases, per_case_s=8.0):
 
 def run_model12(cases):
     text = "".join(c.model_text() for c in cases)
+    if len(cases) > 1:
+        xcheck_record("spec12", [c.model_text() for c in cases[::max(1, len(cases) // 100)]])
     p = subprocess.run([os.path.join(BUILD, "modelrun"), "spec12"], input=text.encode(), stdout=subprocess.PIPE,
                        stderr=subprocess.PIPE, timeout=1200)
     res, cur = {}, None
